@@ -131,8 +131,23 @@ func drawFor(binary string) func(t *rapid.T) Case {
 					ops = append(ops, op)
 				}
 				f.Content = ref.OpsText(ops, false)
-				if gen.OneIn(t, 6, "ws") {
-					f.Content = " " + f.Content + "\n"
+				if gen.OneIn(t, 4, "ws") {
+					// the way files come off editors and other tools: surrounding whitespace, CRLF, a byte-order mark
+					// (whatever the library makes of the bytes is what the command must make of them)
+					switch gen.Uniform(t, 0, 5, "wsk") {
+					case 0:
+						f.Content = " " + f.Content + "\n"
+					case 1:
+						f.Content = f.Content + "\r\n"
+					case 2:
+						f.Content = "\ufeff" + f.Content
+					case 3:
+						f.Content = f.Content + "\n\n\n"
+					case 4:
+						f.Content = strings.ReplaceAll(f.Content, ",", ",\r\n\t")
+					default:
+						f.Content = f.Content + strings.Repeat(" ", 70000) // larger than one pipe/page-sized read
+					}
 				}
 			}
 			c.Files = append(c.Files, f)
